@@ -29,7 +29,8 @@ RULE = (
 )
 ASSUMPTIONS = [
     "clock injected by rebinding storage.db.time / storage.kv.time; collector passes driven by run_once()",
-    "an expiration given as a JSON number or as a non-canonical numeric string is free (may or may not be honoured)",
+    "an expiration given as a JSON number, or as a string of ASCII digits with leading zeros, is free (may or may not be honoured); "
+    "a string with any other character (sign, blank, separator, exponent, fraction, text, empty) is not a well-formed timestamp: the event must stay",
     "LMDB backend over /verif/shim; SQL = SQLite",
 ]
 MIN_NONTRIVIAL = {"quick": 100, "thorough": 1000}
@@ -37,7 +38,7 @@ REQUIRED_COUNTERS = ["clause.must_go", "clause.must_stay", "clause.orphans", "cl
 SHARD_TIMEOUT = {"quick": 500, "thorough": 3000}
 NOW = gen.T0
 PASSES = [10 ** 9 - 1, 10 ** 9, NOW, 2 ** 31 - 1]
-CANON = re.compile(r"^(0|[1-9][0-9]*)$")
+CANON = re.compile(r"\A(0|[1-9][0-9]*)\Z")
 
 
 def plan(tier, seed):
@@ -49,6 +50,7 @@ def exp_values(r, T):
     return r.choice([
         str(T - 1), str(T), str(T + 1), str(T + 10 ** 6), "5", "0", "1", "999999999", "1000000000", "1000000001", "99999999999",
         str(T * 1000), str((T - 50) * 1000), "", "abc", "-1", " 5", "05", "1e9", "1.5", "+5", "५", str(T - 1) + " ", "0x10",
+        "-5", "+" + str(T - 1), " " + str(T - 1), str(T - 1) + "\n", "1_000", "1_0", "\t7", "٣", "5\x00", "٠",
         T - 1, T + 1, 5, float(T - 1), None,
     ])
 
@@ -61,14 +63,10 @@ def exp_vote(v, T):
     if isinstance(v, str):
         if CANON.match(v):
             return "GO" if int(v) < T else "STAY"
-        s = v.strip()
-        try:
-            float(s)
-            return "FREE"
-        except ValueError:
-            pass
-        if s.isdigit() or s.lower().startswith("0x"):
-            return "FREE"
+        if v and all(c in "0123456789" for c in v):
+            return "FREE"  # leading zeros
+        # anything else is not a well-formed timestamp (sign, blanks, separators, exponent, fraction, other
+        # alphabets, text, empty): the event is one of the "other events" a pass must leave alone
         return "STAY"
     return "FREE"
 
@@ -344,7 +342,13 @@ def value_class(e, T):
     if CANON.match(v):
         n, t = len(v), len(str(T))
         return "canonical/%s-digits-than-T" % ("fewer" if n < t else ("more" if n > t else "same"))
-    return "non-numeric" if exp_vote(v, T) == "STAY" else "non-canonical"
+    if exp_vote(v, T) == "FREE":
+        return "non-canonical"
+    try:
+        int(v)
+        return "malformed-but-int()-parsable"
+    except ValueError:
+        return "non-numeric"
 
 
 async def run_many(backend, stores, counters):
